@@ -696,7 +696,7 @@ Fixpoint glom_ (fuel : nat) (sc : scope) (t : val) (s : spec) {struct fuel} : M 
   match fuel with O => fun st => (OutOfFuel, st) | S fuel => glom_body (glom_ fuel) sc t s end.
 End Interp.
 
-Definition default_fuel_i : nat := 14.
+Definition default_fuel_i : nat := 60.
 
 (* glom(target, spec, scope={...}): a fresh root frame per call, the caller's bindings copied into it *)
 Definition root_frame (user : list (string * val)) : frame := mkFrame user AUTO false [].
